@@ -5,6 +5,9 @@ import uuid
 
 STRS = ["", "a", "1", "é", "josé", "日本語", "𝒳", "\x00", "a\x00b", "'", '"', "\\", "\n", " ",
         "user@example.com", "00000042", "x" * 10_000]  # fmt: skip
+# long values that differ only behind a common prefix of a "round" length (truncated / windowed hashing)
+for _n in (63, 64, 127, 128, 255, 256, 1023, 1024, 4095, 4096, 65535, 65536):
+    STRS += ["q" * _n + "a", "q" * _n + "b"]
 LONG = "y" * 1_000_000
 INTS = [0, 1, -1, 42, 2**31, 2**63, 2**64, 10**100, 10**4000]
 FLOATS = [0.0, -0.0, 1.0, 1.5, 0.1, 1e308, 5e-324, float("inf"), float("-inf"), float("nan")]
